@@ -3,3 +3,5 @@ from vlib import driver
 
 driver("drv_lru", variant="asan")
 driver("drv_kdtree", variant="asan")
+driver("drv_pr", variant="plain", lib=True)
+driver("drv_prfree", variant="tsan")
